@@ -12,10 +12,10 @@
 //!
 //! Streams (environment variable `C03_STREAM`):
 //! * `order` — the manifest iteration order is forced through the cfg(routinator_verif) hook
-//!   `verif_c03::order` (injection site "engine.manifest_order"); sequential.
+//!   `verif_c03::order` (injection site "engine.manifest_order <manifest URI>").
 //! * `hist`  — histories, faults, regressions, unreachable repository, stale policies with the
 //!   engine's own random order (the model's observation is order-independent, theorem
-//!   `obs_order_invariant`); 4 worker threads.
+//!   `C03_order_invariant`).
 //! * `tamper` — the cached manifest number / thisUpdate of the stored point are overwritten
 //!   between runs (the "internally inconsistent stored copy" branch).
 
@@ -24,7 +24,15 @@ use serde_json::{json, Value};
 use rv_harness::rpkigen::*;
 use rv_harness::util::*;
 
-const POINT_MODULE: &str = "rpki.point.example/pp";
+/// Worker number of the current thread: worlds of different threads use different host names, so
+/// that the order hook (keyed by manifest URI) of one thread never touches another thread's run.
+fn worker() -> usize {
+    use std::sync::atomic::{AtomicUsize, Ordering};
+    static NEXT: AtomicUsize = AtomicUsize::new(0);
+    thread_local! { static ID: usize = NEXT.fetch_add(1, Ordering::SeqCst); }
+    ID.with(|i| *i)
+}
+fn point_host() -> String { format!("rpki.point{}.example", worker()) }
 const TIME_SHIFT: i64 = 1_000_000;
 const UNKNOWN: u64 = 999_999;
 
@@ -44,14 +52,14 @@ fn make_spec(sc: &Value) -> Made {
     let mut s = Scen::new();
     let base_ca;
     if layout == "ta" {
-        s.add_ta("t", "P", 1, "rpki.point.example", "pp",
+        s.add_ta("t", "P", 1, &point_host(), "pp",
                  res(&["10.1.0.0/16"], &["2001:db8:1::/48"], &[(64400, 64999)]));
         base_ca = None;
     } else {
         s.add_ta("t", "A", 0, "rpki.root.example", "repo",
                  res(&["10.0.0.0/8"], &["2001:db8::/32"], &[(64000, 65535)]));
         s.add_roa("A", "base.roa", 64001, &[("10.0.0.0/16", None)]);
-        s.add_child("A", "P", 1, "rpki.point.example", "pp",
+        s.add_child("A", "P", 1, &point_host(), "pp",
                     res(&["10.1.0.0/16"], &["2001:db8:1::/48"], &[(64400, 64999)]));
         base_ca = Some("A".to_string());
     }
@@ -59,7 +67,7 @@ fn make_spec(sc: &Value) -> Made {
     let wants_ca = sc["versions"].as_array().unwrap().iter()
         .any(|v| v["objects"].as_array().unwrap().iter().any(|o| o["kind"] == "ca"));
     if wants_ca {
-        s.add_point("G", 2, "rpki.point.example", "gg");
+        s.add_point("G", 2, &point_host(), "gg");
         s.add_roa("G", "g.roa", 64990, &[("10.1.250.0/24", None)]);
     }
     let mut cache: HashMap<(String, String, u64), ObjSpec> = HashMap::new();
@@ -277,7 +285,7 @@ fn run_case(sc: &Value) -> CaseOut {
         let no_update = r["no_update"].as_bool().unwrap_or(false);
         let stale = r["stale"].as_str().unwrap_or("reject").to_string();
         let mut plan = ServePlan::step(0).with_version(&made.point, serve);
-        if unreachable { plan = plan.unreachable(POINT_MODULE); }
+        if unreachable { plan = plan.unreachable(&pt.module); }
         world.serve(&plan).expect("serve");
         if !no_update && !unreachable { coll = serve; }
         // tamper with the stored copy before the run
@@ -294,14 +302,15 @@ fn run_case(sc: &Value) -> CaseOut {
             Some(p) if p.len() == n_files => p.clone(),
             _ => (0..n_files).collect(),
         };
+        let site = format!("engine.manifest_order {}", mft_uri);
         match &perm {
-            Some(p) if p.len() == n_files && n_files > 0 => routinator::verif::set_forced("engine.manifest_order", vec![perm_index(p)]),
-            Some(_) => routinator::verif::set_forced("engine.manifest_order", vec![0]),
+            Some(p) if p.len() == n_files && n_files > 0 => routinator::verif::set_forced(&site, vec![perm_index(p)]),
+            Some(_) => routinator::verif::set_forced(&site, vec![0]),
             None => { }
         }
         let cfg = RunCfg { stale: stale.clone(), no_update, ..RunCfg::default() };
         let out = world.run(&cfg);
-        if perm.is_some() { routinator::verif::set_forced("engine.manifest_order", vec![]); }
+        if perm.is_some() { routinator::verif::set_forced(&site, vec![]); }
 
         let fetch_coq = if no_update { "NoCollector".to_string() } else {
             match fetched {
@@ -572,8 +581,8 @@ fn main() {
     act_as_rsync_if_child();
     let stream = std::env::var("C03_STREAM").unwrap_or_else(|_| "order".into());
     match stream.as_str() {
-        "order" => drive(gen_order, run_case),
-        "tamper" => drive(gen_tamper, run_case),
+        "order" => drive_par(gen_order, run_case, 4),
+        "tamper" => drive_par(gen_tamper, run_case, 4),
         "hist" => drive_par(gen_hist, run_case, 4),
         x => panic!("unknown C03_STREAM {}", x),
     }
